@@ -1,2 +1,175 @@
-(* Runs the extracted, Coq-verified checkers on implementation outputs. *)
-let main (_prop : string) (_cases : string) (_impl : string) : unit = failwith "no checkers yet"
+(* Runs the extracted, Coq-verified boolean checkers (Check/*.v) on the
+   IMPLEMENTATION's outputs.  For each case line + implementation result line
+   prints "<number of clauses evaluated> <names of failed clauses...>".
+   The mapping clause -> property lives in tools/check.py. *)
+open Model
+open Common
+
+let parse_impl (line : string) : (string, string) Hashtbl.t =
+  let h = Hashtbl.create 8 in
+  List.iter
+    (fun t ->
+      match String.index_opt t '=' with
+      | Some p -> Hashtbl.replace h (String.sub t 0 p) (String.sub t (p + 1) (String.length t - p - 1))
+      | None -> Hashtbl.replace h t "")
+    (List.filter (fun x -> x <> "") (String.split_on_char ' ' line));
+  h
+
+let n = nat_of_int
+
+let ranges_identical (orc : oracles) os oe ns ne : bool =
+  oe - os = ne - ns && seg_eq orc.o_on (n os) (n ns) (n (max 0 (oe - os)))
+
+let clauses_raw h (impl : string) : (string * bool) list =
+  let s = parse_seqs h in
+  let orc = oracles_of s in
+  let os, oe = parse_range (get h "or") and ns, ne = parse_range (get h "nr") in
+  let stack = get h "stack" in
+  let fail = parse_opt (get h "fail") in
+  let dlo = parse_opt (get h "dl") in
+  let alg = get h "alg" in
+  if impl = "PANIC" || impl = "TIMEOUT" then [ ("no_panic", false) ]
+  else
+    let ih = parse_impl impl in
+    let cs = parse_calls (get ih "calls") in
+    let err = get ih "err" in
+    let ops = calls_to_ops cs in
+    match fail with
+    | Some k ->
+        (* a failing hook call aborts the diff: nothing after call k, error returned *)
+        let len = List.length cs in
+        [ ("no_panic", true);
+          ("abort", if err = "1" then len = k + 1 else err = "0" && len <= k) ]
+    | None -> (
+        let base = [ ("no_panic", true); ("no_error", err = "0") ] in
+        match stack with
+        | "none" | "mutref" ->
+            base
+            @ [ ("raw_valid", check_raw orc.o_on (n os) (n oe) (n ns) (n ne) cs);
+                ("finish_last", check_finish_last cs) ]
+            @ (if dlo = None && (alg = "M" || alg = "L") then
+                 [ ("minimal", check_minimal orc.o_on (n os) (n oe) (n ns) (n ne) ops) ]
+               else [])
+            @ (match dlo with
+               | Some _ when stack = "none" ->
+                   (* after expiry only a small constant multiple of N+M further comparisons *)
+                   let post = int_of_string (get ih "post") in
+                   [ ("post_expiry_work", post <= 8 * (max 0 (oe - os) + max 0 (ne - ns)) + 8) ]
+               | _ -> [])
+        | "nofinish" ->
+            base
+            @ [ ("nofinish_no_fin", not (List.mem CFin cs));
+                ("raw_valid", check_raw orc.o_on (n os) (n oe) (n ns) (n ne) (cs @ [ CFin ])) ]
+        | "replace" ->
+            base
+            @ [ ("finish_last", check_finish_last cs);
+                ("ops_exact", check_ops_exact orc.o_on (n os) (n oe) (n ns) (n ne) ops);
+                ("alternating", check_alternating ops) ]
+        | "replace_norep" ->
+            base
+            @ [ ("finish_last", check_finish_last cs);
+                ("no_rep", not (List.exists (function CRep _ -> true | _ -> false) cs));
+                ("ops_loose", check_ops_loose orc.o_on (n os) (n oe) (n ns) (n ne) ops) ]
+        | "compact" ->
+            base
+            @ [ ("finish_last", check_finish_last cs);
+                ("ops_loose", check_ops_loose orc.o_on (n os) (n oe) (n ns) (n ne) ops) ]
+        | "compact_replace" ->
+            base
+            @ [ ("finish_last", check_finish_last cs);
+                ("ops_loose", check_ops_loose orc.o_on (n os) (n oe) (n ns) (n ne) ops);
+                ("normal", check_normal orc.o_on ops) ]
+        | _ -> base)
+
+let clauses_capture h (impl : string) : (string * bool) list =
+  let s = parse_seqs h in
+  let orc = oracles_of s in
+  let os, oe = parse_range (get h "or") and ns, ne = parse_range (get h "nr") in
+  let dlo = parse_opt (get h "dl") in
+  let alg = get h "alg" in
+  if impl = "PANIC" || impl = "TIMEOUT" then [ ("no_panic", false) ]
+  else
+    let ih = parse_impl impl in
+    let ops = calls_to_ops (parse_calls (get ih "ops")) in
+    let bits = Int32.of_string (get ih "ratio") in
+    let r = Int32.float_of_bits bits in
+    let ident = ranges_identical orc os oe ns ne in
+    let len = max 0 (oe - os) in
+    [ ("no_panic", true);
+      ("ops_loose", check_ops_loose orc.o_on (n os) (n oe) (n ns) (n ne) ops);
+      ("ops_exact", check_ops_exact orc.o_on (n os) (n oe) (n ns) (n ne) ops);
+      ("normal", check_normal orc.o_on ops);
+      ("ratio_range", r >= 0.0 && r <= 1.0 && (r = 1.0) = ident);
+      ( "identical_only_equal",
+        (not ident) || ops = if len = 0 then [] else [ Equal (n os, n ns, n len) ] ) ]
+    @ (match dlo with
+       | Some _ when alg = "M" || alg = "L" ->
+           (* the deadline reaches the algorithm: when both ranges are non-empty and
+              differ in their first and in their last item, Myers enters the
+              middle-snake search and LCS builds its table, each of which probes
+              the deadline at least once *)
+           let must_probe =
+             os < oe && ns < ne
+             && orc.o_on (n os) (n ns) = Ok false
+             && orc.o_on (n (oe - 1)) (n (ne - 1)) = Ok false
+           in
+           [ ("deadline_plumbed", (not must_probe) || int_of_string (get ih "probes") > 0) ]
+       | _ -> [])
+    @
+    if dlo = None && (alg = "M" || alg = "L") then
+      let l = int_of_nat (lcs_len orc.o_on (n os) (n oe) (n ns) (n ne)) in
+      let tot = max 0 (oe - os) + max 0 (ne - ns) in
+      [ ("minimal", check_minimal orc.o_on (n os) (n oe) (n ns) (n ne) ops);
+        ("equal_is_lcs", int_of_nat (equal_total ops) = l);
+        ("ratio_2L", if tot = 0 then r = 1.0 else bits = Core_cases.f32_bits_of_ratio (2 * l) tot) ]
+    else []
+
+let clauses_adapter h (impl : string) : (string * bool) list =
+  let s = parse_seqs h in
+  let orc = oracles_of s in
+  let os, oe = (0, Array.length s.olda) and ns, ne = (0, Array.length s.newa) in
+  let stack = get h "stack" in
+  let fail = parse_opt (get h "fail") in
+  let script = parse_calls (get h "script") in
+  if impl = "PANIC" || impl = "TIMEOUT" then [ ("no_panic", false) ]
+  else
+    let ih = parse_impl impl in
+    let cs = parse_calls (get ih "calls") in
+    let err = get ih "err" in
+    let ops = calls_to_ops cs in
+    let inp = calls_to_ops script in
+    match fail with
+    | Some k ->
+        let len = List.length cs in
+        [ ("no_panic", true); ("abort", if err = "1" then len = k + 1 else err = "0" && len <= k) ]
+    | None ->
+        [ ("no_panic", true);
+          ("no_error", err = "0");
+          ("finish_last", check_finish_last cs);
+          ("ops_loose", check_ops_loose orc.o_on (n os) (n oe) (n ns) (n ne) ops);
+          ("cost_kept", deleted ops = deleted inp && inserted ops = inserted inp) ]
+        @ (if stack = "compact_replace" then [ ("normal", check_normal orc.o_on ops) ] else [])
+        @ if stack = "replace" then [ ("ops_exact", check_ops_exact orc.o_on (n os) (n oe) (n ns) (n ne) ops) ] else []
+
+let clauses (line : string) (impl : string) : (string * bool) list =
+  let comp, h = parse_kv line in
+  match comp with
+  | "raw" -> clauses_raw h impl
+  | "capture" -> clauses_capture h impl
+  | "adapter" -> clauses_adapter h impl
+  | _ -> Text_checks.clauses comp h impl
+
+let main (cases : string) (impl : string) : unit =
+  let ic = open_in cases and ii = open_in impl in
+  let out = Buffer.create 65536 in
+  (try
+     while true do
+       let line = input_line ic in
+       let il = input_line ii in
+       let cl = try clauses line il with Failure m -> [ ("checker_error:" ^ m, false) ] | Not_found -> [ ("checker_error", false) ] in
+       Buffer.add_string out (string_of_int (List.length cl));
+       List.iter (fun (nm, ok) -> if not ok then (Buffer.add_char out ' '; Buffer.add_string out nm)) cl;
+       Buffer.add_char out '\n'
+     done
+   with End_of_file -> ());
+  print_string (Buffer.contents out)
